@@ -104,6 +104,7 @@ class State:
         self.next_oid = 0
         self.trace = []           # branch decisions (for reporting)
         self._nn = set()
+        self.owned = frozenset()
 
     def fork(self):
         s = State()
@@ -116,6 +117,10 @@ class State:
         s.next_oid = self.next_oid
         s.trace = list(self.trace)
         s._nn = set(self._nn)
+        s.owned = self.owned
+        for k_, v_ in self.__dict__.items():
+            if k_.startswith('_lab_'):
+                setattr(s, k_, v_)
         return s
 
     def assume(self, *conds):
@@ -215,6 +220,7 @@ def merge_states(states):
         out.pc = list(pcs[0][:k]) + [z3.Or(deltas)]
         out.old, out.consts, out.next_oid = base.old, base.consts, base.next_oid
         out._nn = set.intersection(*[s._nn for s in states])
+        out.owned = frozenset().union(*[s.owned for s in states])
         out.locals = {name: m([s.locals[name] for s in states]) for name in base.locals}
         out.ghost = {name: m([s.ghost[name] for s in states]) for name in base.ghost}
         for oid, h in base.heap.items():
